@@ -113,7 +113,14 @@ Multi ==
        /\ in' = [NoIn EXCEPT !.fam = "multi", !.cfg = [nf |-> nf, rel |-> rel, axis |-> ax, align |-> al, sort |-> so, keys |-> keys]]
        \* only the x axes differ between files: joining along x itself needs no alignment
        /\ out' = [ok |-> (rel = "equal" \/ al \/ ax = "x"), val |-> <<>>, err |-> IF rel = "equal" \/ al \/ ax = "x" THEN "" ELSE "ValueError"]
-Next == (Read \/ ReadTol \/ DsRead \/ Assign \/ AssignTol \/ Assign2 \/ AppendUnl \/ Multi) /\ (Emit => PrintT(ToJson([op |-> "ondisk", in |-> in', out |-> out'])))
+\* a 0-d variable on disk: only the empty index addresses it.  Any other index (a position, a label, a list, a slice with bounds,
+\* a dimension it does not have, two indices) is rejected as on the loaded array - and an assignment through it leaves the file as it was
+ZeroD ==
+  /\ ph = 0 /\ ph' = 1
+  /\ \E k \in {"sc", "li", "sl", "str", "dict", "two", "empty"} : \E w \in BOOLEAN : \E mode \in {"label", "position"} :
+       /\ in' = [NoIn EXCEPT !.fam = "zerod", !.v = k, !.two = w, !.mode = mode]
+       /\ out' = [ok |-> k = "empty", val |-> <<>>, err |-> IF k = "empty" THEN "" ELSE "IndexError"]
+Next == (Read \/ ReadTol \/ DsRead \/ Assign \/ AssignTol \/ Assign2 \/ AppendUnl \/ Multi \/ ZeroD) /\ (Emit => PrintT(ToJson([op |-> "ondisk", in |-> in', out |-> out'])))
 Spec == Init /\ [][Next]_vars
 Sane == (ph = 1 /\ in.fam \in {"read", "assign"} /\ out.ok) => WellFormed(out.val)
 =============================================================================
